@@ -30,8 +30,9 @@ Lemma body_spec pm am i p :
   ((Rmin (Aup i p) pm, am_next am i p),
    (Rmin (Aup i p) pm, Rmax (Tup i p) (am_next am i p), nleb p (Rmax (Tup i p) (am_next am i p)))).
 Proof.
-  unfold hochberg_stepup_body, am_next. unfold Aup, Tup. destruct (adjust p (m - INR i)) as [a t]. nR. cbn [fst snd].
-  destruct ((if Req_EM_T am 0 then true else false) && (if Rle_dec p t then true else false)); reflexivity.
+  unfold hochberg_stepup_body, am_next. unfold Aup, Tup. cbv zeta. canon_to (m - INR i).
+  destruct (adjust p (m - INR i)) as [a t]. nR. cbv [nmin nmax]. cbn [fst snd].
+  destruct ((if Req_EM_T am 0 then true else false) && (if Rle_dec p t then true else false)); first [reflexivity | (cbv beta iota zeta; rq)].
 Qed.
 
 (* outputs of the loop over a list in processing order *)
@@ -192,8 +193,8 @@ Lemma dn_body_spec pn ax k p :
   ((Rmax (Adn k p) pn, ax_next ax k p),
    (Rmax (Adn k p) pn, Rmin (Tdn k p) (ax_next ax k p), nleb p (Rmin (Tdn k p) (ax_next ax k p)))).
 Proof.
-  unfold holm_stepdown_body, ax_next. unfold Adn, Tdn. destruct (adjust p (INR k)) as [a t]. nR. cbn [fst snd].
-  destruct ((if Req_EM_T ax 1 then true else false) && (if Rlt_dec t p then true else false)); reflexivity.
+  unfold holm_stepdown_body, ax_next. unfold Adn, Tdn. cbv zeta. destruct (adjust p (INR k)) as [a t]. nR. cbv [nmin nmax]. cbn [fst snd].
+  destruct ((if Req_EM_T ax 1 then true else false) && (if Rlt_dec t p then true else false)); first [reflexivity | (cbv beta iota zeta; rq)].
 Qed.
 
 Fixpoint dn_spec (pn ax : R) (k : nat) (l : list (nat * R)) : list (nat * (R * R * bool)) :=
